@@ -8,7 +8,7 @@
 From Coq Require Import List NArith Bool Arith Lia ZArith.
 From PQ Require Import Dremel.NullRuns.
 Import ListNotations.
-Open Scope N_scope.
+Local Open Scope N_scope.
 
 (** * Constants *)
 
